@@ -67,13 +67,13 @@ CHECKS.update({
 
 CHECKS.update({
     "C17": dict(
-        technique="static analysis: null-test dominance on the MIR CFG for extern \"C\" pointer parameters (helper summaries, closures, array idiom), C header parser compared with compiled signatures/layouts, RefCell-guard-held-across-hazard forward dataflow, unguarded-store rule, value-origin rule for reported array lengths, path rule for borrowed error strings, compare-before-free rule for handles given to a foreign callee",
+        technique="static analysis: null-test dominance on the MIR CFG for extern \"C\" pointer parameters (helper summaries, closures, array idiom), C header parser compared with compiled signatures/layouts, RefCell-guard-held-across-hazard forward dataflow, unguarded-store rule, value-origin rule for reported array lengths, path rule for borrowed error strings, compare-before-free rule for handles given to a foreign callee, natural-loop rule for frees of collection elements (distinctness by construction or membership test)",
         text="Decides seven structural clauses over all 64 exported functions: every use of a raw-pointer parameter as a valid pointer "
              "is dominated by a NULL test; tsrun.h agrees with the compiled exports (names, arity, types, struct fields, enum "
              "values); no RefCell guard of a GC cell is held across a call that may collect or re-enter (abort in extern \"C\"); "
              "possibly-object values stored across calls carry a guard; every length reported next to a leaked boxed slice is the "
              "len() of that very vector; a C string returned by foreign code is read before last_error is written; a handle given to a foreign callee is freed only on the `!= result` edge when the returned pointer is taken too. The fulfill_orders and callback double-free defects were repaired (fix: commits). "
-             "Aliasing and lifetime contracts of the API are not decided. No API-layer type stores a bare JsValue / Gc between calls. Argument arrays keep their positions (NULL is undefined) and host-supplied sizes that extend a collection are bounded (repaired, fix: commit).",
+             "Aliasing and lifetime contracts of the API are not decided. No API-layer type stores a bare JsValue / Gc between calls. Argument arrays keep their positions (NULL is undefined) and host-supplied sizes that extend a collection are bounded (repaired, fix: commit). A loop that frees the elements of a host-filled collection of handles frees each distinct pointer once (R11; the module builder's double free is repaired, fix: commit).",
         ref="4/C17"),
 })
 
